@@ -588,7 +588,7 @@ func TestVerifC21DB(t *testing.T) {
 		"while the primary / secondary WAL directory is stalled at seeded moments and crash clones are taken by the client and by a concurrent crasher; " +
 		"non-trivial = the real failoverMonitor switched directories at least once; distinct key = case + switch count + clones + recovered batches")
 	r.Assume("crash model = vfs.MemFS.CrashClone; monitor timing is real time and only affects how many switches happen")
-	n := vcommon.Scale(4, 120)
+	n := vcommon.Scale(3, 120)
 	r.Cases(n, func(i int, rng *rand.Rand) {
 		fmvs := []uint64{uint64(pebble.FormatNewest), uint64(pebble.FormatNewest), uint64(pebble.FormatWALSyncChunks) - 1}
 		p := params{
